@@ -209,6 +209,60 @@ def run(ctx):
             dist["apache-read/" + fam] += 1
         if len(samples) < 4:
             samples.append({"direction": "crate writes", "codec": c, "blocks": [c_ for c_, _ in blocks], "metadata_keys": sorted(k.decode("utf-8", "replace") for k in md)})
+    # (1b) the same histories written through sinks that take the file in pieces (partial writes: k bytes per call, write_vectored
+    # gathering across block header / data / sync marker or std's default; 'interrupted' at call indexes of block flushes): the
+    # file must be the one the accept-everything sink got (judged above); a file that differs is parsed / decoded / read on its own
+    cand = [i for i in idx if i < n]
+    rng.shuffle(cand)
+    cand = cand[:(45 if ctx["tier"] == "quick" else 1000)]
+    cases = [{"h": hs[i][0], "ops": hs[i][1], "codec": hs[i][3], "bsz": hs[i][4], "meta": hs[i][5], "start": hs[i][6],
+              "json": jsons[i], "bp": cont.parse_cw(wr[i]), "i": i} for i in cand]
+    sruns = cont.scheduled_runs(rng, cases, n_inject_bases=2, bad=False, singles=6, n_random=1)
+    q = []
+    for r in sruns:
+        c = cases[r["ci"]]
+        i, pi = c["i"], r["pi"]
+        sink_kind = "%s, %s write_vectored" % (r["tag"], "gathering" if r["vectored"] else "default")
+        dist["written-through-scheduled-sink/" + ("gathering" if r["vectored"] else "default-write_vectored")] += 1
+        if pi is None or pi.get("build_err") or any(rr != "ok" for (k, *_), (rr, l) in zip(c["ops"], pi["ops"]) if k != "fail"):
+            violations.append({"impl_case": clip(r["line"]), "what": "writing failed on a sink taking partial writes / reporting 'interrupted' (%s)" % sink_kind, "impl": r["res"][:300]})
+            continue
+        d = cont.model_vs_run(r)
+        if d:
+            diffs.append(d)
+        if pi["sink"] != files[i]:
+            q.append((r, i, sink_kind, pi["sink"]))
+    q_fp = cont.run_model(["fileparse " + C.hx(f) for _, _, _, f in q])
+    q_ap = C.run_parallel(C.AVRODRIVE, ["apache_read " + C.hx(f) for _, _, _, f in q])
+    q_cr = C.run_parallel(C.AVRODRIVE, ["cr %s slice any %d" % (C.hx(f), len(hs[i][2]) + 3) for _, i, _, f in q])
+    for (r, i, sink_kind, f), rfp, rap, rcr in zip(q, q_fp, q_ap, q_cr):
+        h, ops, expected, c, b, meta, start = hs[i]
+        fam = cont.codec_family(c)
+        canon = [C.unhex(h.spec[j]["canon"]) for j in expected]
+        line = clip(r["line"])
+        fp = cont.parse_fileparse(rfp)
+        k0 = next((x for x in range(min(len(f), len(files[i]))) if f[x] != files[i][x]), min(len(f), len(files[i])))
+        how = "%d bytes instead of %d, first difference at offset %d" % (len(f), len(files[i]), k0)
+        if fp is None:
+            violations.append({"impl_case": line, "what": "the file written through a sink taking partial writes (%s) is not in the container grammar (reference parser); %s" % (sink_kind, how)})
+            continue
+        for cnt, dd in fp["blocks"]:
+            dec.want(fam, dd)
+        pls = [dec.get(fam, dd)[0] for cnt, dd in fp["blocks"]]
+        if fp["sync"] != cont.SYNC or any(pl is None for pl in pls) or b"".join(pls) != b"".join(canon) or sum(cnt for cnt, _ in fp["blocks"]) != len(canon):
+            violations.append({"impl_case": line, "what": "the file written through a sink taking partial writes (%s) does not hold the written values (blocks %r); %s" % (
+                sink_kind, [cnt for cnt, _ in fp["blocks"]], how)})
+            continue
+        pr = cont.parse_cr(rcr)
+        okr = not pr.get("open_err") and "items" in pr and cont.values_prefix_then_eof(pr["items"], [h.spec[j]["dany"] for j in expected], True)[0]
+        pa = C.parse_sx(rap)[0]
+        if not okr:
+            violations.append({"impl_case": line, "what": "the file written through a sink taking partial writes (%s) is not read back by the crate's reader; %s" % (sink_kind, how)})
+        elif pa[0] != "ok" and not any(x == b"" for x in canon) and not (b'":".' in jsons[i] or b'[".' in jsons[i] or b',".' in jsons[i] or b'"namespace":""' in jsons[i]):
+            violations.append({"impl_case": line, "what": "apache-avro cannot read the file written through a sink taking partial writes (%s); %s" % (sink_kind, how)})
+        else:
+            diffs.append({"impl_case": line, "what": "the file written through %s differs from the accept-everything sink's file (both readable); %s" % (sink_kind, how)})
+    n_sched = len(sruns) + sum(1 for r in sruns if r["rm"] is not None) + 3 * len(q)
     # (2) files from an independent conforming writer, read by the crate
     rl, rmeta = [], []
     for i, (h, ops, expected, c, b, meta, start) in enumerate(hs):
@@ -256,7 +310,7 @@ def run(ctx):
         if len(samples) < 8:
             samples.append({"direction": origin, "values": len(exp)})
     violations.sort(key=lambda v: len(v.get("impl_case", "")))      # the smallest reproducing inputs first
-    return {"evaluations": len(wl) + len(ml) + len(rl) + len(al) + 2 * len(idx), "distinct_nontrivial": len(distinct),
+    return {"evaluations": len(wl) + len(ml) + len(rl) + len(al) + 2 * len(idx) + n_sched, "distinct_nontrivial": len(distinct),
             "rule": "(1) files written by the crate (12 codec settings, user metadata, block sizes; random schemas with small values, and a directed "
                     "enumeration codec setting x starting length of the encode loops' output buffer {1,2,64,1024,4096,32768} (hook H3) x value shapes {bytes, "
                     "string, fixed, record{long,bytes}, array of doubles, many medium records per block} with incompressible / text / constant contents of "
@@ -266,6 +320,10 @@ def run(ctx):
                     "data = exactly one complete stream for an independent decoder (Python's zlib/bz2/lzma for deflate/bzip2/xz, the snap / zstd crates' own decoders "
                     "and zlib.crc32 for snappy/zstandard) whose payload = the encodings (specification encoder) of the values the block announces; the file with "
                     "its blocks decompressed = the file of Container.v's writer model run with the identity as block compressor (model difference); and read by apache-avro 0.17; "
+                    "(1b) a sample of the same histories written through sinks taking the file in pieces (lib/cont.py scheduled_runs: k bytes per call with write_vectored gathering across "
+                    "block header / data / sync marker or std's default, k chosen against the blocks' lengths, irregular sizes, 'interrupted' at call indexes of block flushes incl. after "
+                    "partial progress, bursts up to 40, every call once / twice): writing succeeds, the file = the one above (= the writer model's under the same schedule, null codec); a "
+                    "file that differs is itself parsed by the reference parser, decoded, read by the crate and by apache-avro; "
                     "(2) files from an independent writer (any block partition, shuffled metadata in any map layout incl. negative counts, extra "
                     "keys, avro.codec absent, deflate/bzip2/xz at several levels/checks) and (3) files written by apache-avro (six codecs) read by the crate",
             "samples": samples, "violations": violations, "model_diffs": diffs,
